@@ -481,6 +481,40 @@ func queries64(t *rapid.T, x *m64, fail func(string, ...interface{})) {
 			fail("#%d.Rank(%d)=%d want %d", x.id, v, g, w)
 		}
 	}
+	// Equals against the same low-32 contents under other bucket keys, and against near misses
+	if n > 0 && n <= 300000 {
+		for _, d := range []uint64{1, 2} {
+			if m.Max()>>32+d > 0xFFFFFFFF {
+				continue
+			}
+			sh := roaring64.New()
+			for _, iv := range m.Intervals() {
+				lo, hi := iv.Lo+d<<32, iv.Hi+d<<32
+				if hi == model.Max64 {
+					sh.AddRange(lo, hi)
+					sh.Add(hi)
+				} else {
+					sh.AddRange(lo, hi+1)
+				}
+			}
+			if sh.GetCardinality() != n {
+				fail("harness: shifted copy has %d values, want %d", sh.GetCardinality(), n)
+			}
+			if b.Equals(sh) || sh.Equals(b) {
+				fail("#%d.Equals(the same bitmap shifted by %d buckets) = true", x.id, d)
+			}
+		}
+		cp := b.Clone()
+		if !b.Equals(cp) || !cp.Equals(b) {
+			fail("#%d.Equals(Clone) = false", x.id)
+		}
+		v := value64(t, "eqv", m)
+		if cp.CheckedAdd(v) || cp.CheckedRemove(v) {
+			if b.Equals(cp) || cp.Equals(b) {
+				fail("#%d.Equals(clone with %d toggled) = true", x.id, v)
+			}
+		}
+	}
 	sel := []uint64{0, n, n + 1}
 	if n > 0 {
 		sel = append(sel, n-1, rapid.Uint64Range(0, n-1).Draw(t, "seli"))
